@@ -16,6 +16,12 @@ _HOOK_TAIL = ("            return hook_func(*args, **kwargs)\n"
               "            if not cls._SWALLOW_ADDON_EXCEPTIONS:\n"
               "                raise\n")
 
+_HOOK_TAIL_FIXED = ("            return ret if ret else None\n"
+                    "        except:\n"
+                    "            logging.exception(\"Exploded in %r's %s hook\" % (addon, hook_name))\n"
+                    "            if not cls._SWALLOW_ADDON_EXCEPTIONS:\n"
+                    "                raise\n")
+
 _PRED_TRY = ("            try:\n"
              "                if predicate and not predicate(args):\n"
              "                    continue\n"
@@ -339,22 +345,22 @@ VARIANTS = [
      "new": "        return os.stat(path).st_mtime\n    except OSError:\n        return None\n"},
     # ------------------------------------------------------------------ R9
     {"name": "R9 command message dropped only after the command dispatch succeeded", "file": ADDONS, "expect": "C07.R9",
-     "old": ("                region.circuit.drop_message(message)\n"
+     "old": ("COMMAND_CHANNEL:\n                region.circuit.drop_message(message)\n"
              "                with addon_ctx.push(session, region):\n"
              "                    try:\n"
              "                        cls._handle_command(session, region, message[\"ChatData\"][\"Message\"])\n"),
-     "new": ("                with addon_ctx.push(session, region):\n"
+     "new": ("COMMAND_CHANNEL:\n                with addon_ctx.push(session, region):\n"
              "                    try:\n"
              "                        cls._handle_command(session, region, message[\"ChatData\"][\"Message\"])\n"
              "                        region.circuit.drop_message(message)\n")},
     {"name": "R9 command message claimed without being dropped", "file": ADDONS, "expect": "C07.R9",
-     "old": ("                region.circuit.drop_message(message)\n"
+     "old": ("COMMAND_CHANNEL:\n                region.circuit.drop_message(message)\n"
              "                with addon_ctx.push(session, region):\n"),
-     "new": "                with addon_ctx.push(session, region):\n"},
+     "new": "COMMAND_CHANNEL:\n                with addon_ctx.push(session, region):\n"},
     {"name": "P R9 command message dropped in a finally around the dispatch", "file": ADDONS, "expect": "silent",
-     "old": ("                region.circuit.drop_message(message)\n"
+     "old": ("COMMAND_CHANNEL:\n                region.circuit.drop_message(message)\n"
              "                with addon_ctx.push(session, region):\n"),
-     "new": ("                try:\n"
+     "new": ("COMMAND_CHANNEL:\n                try:\n"
              "                    region.circuit.drop_message(message)\n"
              "                finally:\n"
              "                    pass\n"
@@ -446,6 +452,50 @@ VARIANTS = [
                {"file": PCIRC, "old": "        fwd_injections.mark_dropped(message.packet_id)\n        message.dropped = True\n"
                                       "        message.finalized = True\n",
                 "new": "        fwd_injections.mark_dropped(message.packet_id)\n"}]},
+    # ---- twins of earlier variants re-anchored on the text of the audit fixes (inapplicable until those are committed)
+    {"name": "R1 hook re-raised unconditionally [post-audit text]", "file": ADDONS, "expect": "C07.R1",
+     "old": _HOOK_TAIL_FIXED, "new": _HOOK_TAIL_FIXED.replace("            if not cls._SWALLOW_ADDON_EXCEPTIONS:\n                raise\n",
+                                                              "            raise\n")},
+    {"name": "R1 hook called after the try [post-audit text]", "file": ADDONS, "expect": "C07.R1",
+     "old": _HOOK_TAIL_FIXED,
+     "new": ("            pass\n"
+             "        except:\n"
+             "            logging.exception(\"Exploded in %r's %s hook\" % (addon, hook_name))\n"
+             "            if not cls._SWALLOW_ADDON_EXCEPTIONS:\n"
+             "                raise\n"
+             "        ret = hook_func(*args, **kwargs)\n        return ret if ret else None\n")},
+    {"name": "R1 failing hook claims the message [post-audit text]", "file": ADDONS, "expect": "C07.R1",
+     "old": _HOOK_TAIL_FIXED, "new": _HOOK_TAIL_FIXED + "            return True\n"},
+    {"name": "P R1 bare except -> except BaseException [post-audit text]", "file": ADDONS, "expect": "silent",
+     "old": _HOOK_TAIL_FIXED, "new": _HOOK_TAIL_FIXED.replace("        except:\n", "        except BaseException:\n")},
+    {"name": "R3 drop finalized only after the acks went out [post-audit text]", "expect": "C07.R3",
+     "edits": [{"file": PCIRC, "old": "packet_id)\n        message.dropped = True\n        message.finalized = True\n",
+                "new": "packet_id)\n        message.dropped = True\n"},
+               {"file": PCIRC, "old": "            self.send_acks(effective_acks, message.direction, packet_id=message.packet_id)\n",
+                "new": "            self.send_acks(effective_acks, message.direction, packet_id=message.packet_id)\n"
+                       "        message.finalized = True\n"}]},
+    {"name": "R4 queued original not dropped [post-audit text]", "file": LLUDP, "expect": "C07.R4",
+     "old": "        if message.queued and not message.finalized:\n            region.circuit.drop_message(message)\n", "new": ""},
+    {"name": "R4 unconditional drop [post-audit text]", "file": LLUDP, "expect": "C07.R4",
+     "old": "        if message.queued and not message.finalized:\n            region.circuit.drop_message(message)\n",
+     "new": "        if not message.finalized:\n            region.circuit.drop_message(message)\n"},
+    {"name": "R4 queued original dropped only when reliable [post-audit text]", "file": LLUDP, "expect": "C07.R4",
+     "old": "        if message.queued and not message.finalized:\n",
+     "new": "        if message.queued and message.reliable and not message.finalized:\n"},
+    {"name": "R9 command message dropped only after the command dispatch succeeded [post-audit text]", "file": ADDONS, "expect": "C07.R9",
+     "old": ("                if not message.finalized:\n                    region.circuit.drop_message(message)\n"
+             "                with addon_ctx.push(session, region):\n"
+             "                    try:\n"
+             "                        cls._handle_command(session, region, message[\"ChatData\"][\"Message\"])\n"),
+     "new": ("                with addon_ctx.push(session, region):\n"
+             "                    try:\n"
+             "                        cls._handle_command(session, region, message[\"ChatData\"][\"Message\"])\n"
+             "                        if not message.finalized:\n"
+             "                            region.circuit.drop_message(message)\n")},
+    {"name": "R9 command message claimed without being dropped [post-audit text]", "file": ADDONS, "expect": "C07.R9",
+     "old": ("                if not message.finalized:\n                    region.circuit.drop_message(message)\n"
+             "                with addon_ctx.push(session, region):\n"),
+     "new": "                with addon_ctx.push(session, region):\n"},
     # ------------------------------------------------------------------ documented limits
     {"name": "R4 queued original dropped only when reliable", "file": LLUDP, "expect": "C07.R4",
      "old": "        if message.queued:\n            region.circuit.drop_message(message)\n",
